@@ -39,7 +39,7 @@ theorem SafeQ.mono {k : Hash} {Q Q' : List BufElem → Prop} {s : State} (h : Sa
   · exact Or.inr (Or.inl h)
   · exact Or.inr (Or.inr ⟨f, T, back, h1, h2, h3, hq _ h4⟩)
 
-theorem shardIdx_lt (k : Hash) : shardIdx k < numShards.toNat := by
+theorem shardIdx_lt_f (k : Hash) : shardIdx k < numShards.toNat := by
   show (k % 256#64).toNat < (256#64).toNat
   rw [BitVec.toNat_umod]
   exact Nat.mod_lt _ (by decide)
@@ -84,14 +84,14 @@ theorem NoSetItemK.tail {k : Hash} {x : BufElem} {p : List BufElem} (h : NoSetIt
 theorem gone_kstep {k : Hash} {s s' : State} (h : Gone k s) (hk : KStep k s s') : Gone k s' := by
   obtain ⟨h1, h2, h3⟩ := h
   cases hk with
-  | quiet hp hk hcl => exact ⟨(hk h3).1 h1, (hk h3).2 h2, by rw [hp]; exact h3⟩
-  | push e he hp hk hcl => exact ⟨(hk h3).1 h1, (hk h3).2 h2, by rw [hp]; exact h3.append he⟩
+  | quiet hp hk hcl => exact ⟨(hk h3.held).1 h1, (hk h3.held).2 h2, by rw [hp]; exact h3⟩
+  | push e he hsrc hp hk hcl => exact ⟨(hk h3.held).1 h1, (hk h3.held).2 h2, by rw [hp]; exact h3.append he⟩
   | recost i c r hp hp' hk hcl =>
-    exact ⟨(hk h3).1 h1, (hk h3).2 h2, by rw [hp'];  rw [hp] at h3; exact h3.recost⟩
-  | popNonTomb x hp hx hk hcl => exact ⟨(hk h3).1 h1, (hk h3).2 h2, by rw [hp] at h3; exact h3.tail⟩
+    exact ⟨(hk h3.held).1 h1, (hk h3.held).2 h2, by rw [hp'];  rw [hp] at h3; exact h3.recost⟩
+  | popNonTomb x hp hx hk hcl => exact ⟨(hk h3.held).1 h1, (hk h3.held).2 h2, by rw [hp] at h3; exact h3.tail⟩
   | popTomb x hp hx hst hco hcl => exact ⟨hst, hco, by rw [hp] at h3; exact h3.tail⟩
-  | drained x t closing hp hk hpc hcl => exact ⟨(hk h3).1 h1, (hk h3).2 h2, by rw [hp] at h3; exact h3.tail⟩
-  | drainEnd t closing hp hk hpc hpc' hne => exact ⟨(hk h3).1 h1, (hk h3).2 h2, by rw [hp]; exact h3⟩
+  | drained x t closing hp hk hpc hcl => exact ⟨(hk h3.held).1 h1, (hk h3.held).2 h2, by rw [hp] at h3; exact h3.tail⟩
+  | drainEnd t closing hp hk hpc hpc' hne => exact ⟨(hk h3.held).1 h1, (hk h3.held).2 h2, by rw [hp]; exact h3⟩
   | clrPolicy t closing hp hst hco hpc hpc' hne => exact ⟨by rw [hst]; exact h1, hco, by rw [hp]; exact h3⟩
   | clrShard t closing j hp hst1 hst2 hco hpc hpc' hne => exact ⟨hst1 h1, by rw [hco]; exact h2, by rw [hp]; exact h3⟩
 
@@ -120,18 +120,18 @@ theorem clearPending_kstep {k : Hash} {s s' : State} (h : ClearPending k s) (hk 
     · right; left; rw [e0, e]
     · right; right; exact ⟨j, by rw [e0, e], hj, hco hc⟩
   cases hk with
-  | quiet hp hk hcl => exact Or.inl ⟨by rw [hp]; exact h3, keep hcl (hk h3).2⟩
-  | push e he hp hk hcl => exact Or.inl ⟨by rw [hp]; exact h3.append he, keep hcl (hk h3).2⟩
+  | quiet hp hk hcl => exact Or.inl ⟨by rw [hp]; exact h3, keep hcl (hk h3.held).2⟩
+  | push e he hsrc hp hk hcl => exact Or.inl ⟨by rw [hp]; exact h3.append he, keep hcl (hk h3.held).2⟩
   | recost i c r hp hp' hk hcl =>
-    exact Or.inl ⟨by rw [hp']; rw [hp] at h3; exact h3.recost, keep hcl (hk h3).2⟩
-  | popNonTomb x hp hx hk hcl => exact Or.inl ⟨by rw [hp] at h3; exact h3.tail, keep hcl (hk h3).2⟩
+    exact Or.inl ⟨by rw [hp']; rw [hp] at h3; exact h3.recost, keep hcl (hk h3.held).2⟩
+  | popNonTomb x hp hx hk hcl => exact Or.inl ⟨by rw [hp] at h3; exact h3.tail, keep hcl (hk h3.held).2⟩
   | popTomb x hp hx hst hco hcl => exact Or.inl ⟨by rw [hp] at h3; exact h3.tail, keep hcl (fun _ => hco)⟩
-  | drained x t0 closing0 hp hk hpc hcl => exact Or.inl ⟨by rw [hp] at h3; exact h3.tail, keep hcl (hk h3).2⟩
+  | drained x t0 closing0 hp hk hpc hcl => exact Or.inl ⟨by rw [hp] at h3; exact h3.tail, keep hcl (hk h3.held).2⟩
   | drainEnd t0 closing0 hp hk hpc hpc' hne =>
     refine Or.inl ⟨by rw [hp]; exact h3, ?_⟩
     by_cases e : t0 = t
     · subst e; exact ⟨t0, closing0, Or.inr (Or.inl hpc')⟩
-    · exact keep_ne t0 e hne (hk h3).2
+    · exact keep_ne t0 e hne (hk h3.held).2
   | clrPolicy t0 closing0 hp hst hco hpc hpc' hne =>
     refine Or.inl ⟨by rw [hp]; exact h3, ?_⟩
     by_cases e : t0 = t
@@ -143,12 +143,16 @@ theorem clearPending_kstep {k : Hash} {s s' : State} (h : ClearPending k s) (hk 
       rcases hw with e1 | e1 | ⟨j', e1, hj, hc⟩
       · rw [e1] at hpc; cases hpc
       · rw [e1] at hpc; cases hpc
-      · rw [e1] at hpc; cases hpc
-        by_cases hjk : j = shardIdx k
+      · rw [e1] at hpc
+        simp only [CPc.clrShard.injEq] at hpc
+        obtain ⟨_, hjj⟩ := hpc
+        subst hjj
+        by_cases hjk : j' = shardIdx k
         · exact Or.inr ⟨hst2 hjk, by rw [hco]; exact hc, by rw [hp]; exact h3⟩
-        · refine Or.inl ⟨by rw [hp]; exact h3, t0, _, Or.inr (Or.inr ⟨j + 1, ?_, by omega, by rw [hco]; exact hc⟩)⟩
-          have := shardIdx_lt k
-          rw [hpc', if_neg (by omega)]
+        · have hlt := shardIdx_lt_f k
+          have hpc2 : s'.cl t0 = .clrShard closing0 (j' + 1) := by rw [hpc', if_neg (by omega)]
+          exact Or.inl ⟨by rw [hp]; exact h3, t0, closing0,
+            Or.inr (Or.inr ⟨j' + 1, hpc2, by omega, by rw [hco]; exact hc⟩)⟩
     · exact Or.inl ⟨by rw [hp]; exact h3, keep_ne t0 e hne (fun h => by rw [hco]; exact h)⟩
 
 theorem covers_kstep {k : Hash} {Q : List BufElem → Prop} {s s' : State} (hQ : PushStable Q)
@@ -156,7 +160,7 @@ theorem covers_kstep {k : Hash} {Q : List BufElem → Prop} {s s' : State} (hQ :
   unfold Covers at h
   cases hk with
   | quiet hp hk hcl => exact Or.inr (Or.inr (by unfold Covers; rw [hp]; exact h))
-  | push e he hp hk hcl => exact Or.inr (Or.inr (by unfold Covers; rw [hp]; exact h.push hQ he))
+  | push e he hsrc hp hk hcl => exact Or.inr (Or.inr (by unfold Covers; rw [hp]; exact h.push hQ he))
   | recost i c r hp hp' hk hcl =>
     exact Or.inr (Or.inr (by unfold Covers; rw [hp']; rw [hp] at h; exact h.recost))
   | popNonTomb x hp hx hk hcl =>
@@ -201,8 +205,6 @@ def CPc.setKey? : CPc → Option Hash
   | .setUpd i => some i.key
   | .setExit i _ => some i.key
   | .setSend i => some i.key
-  | .setRetTrue i => some i.key
-  | .setRetDrop i => some i.key
   | _ => none
 
 theorem CPc.inSetK_iff (k : Hash) (pc : CPc) : pc.inSetK k ↔ pc.setKey? = some k := by
@@ -227,7 +229,7 @@ theorem setKey_clientStep {cfg : Cfg} {s s' : State} {t : Tid} {ch : Choice}
     rcases stSetUpd_pc cfg s t i with e | e <;> rw [e] <;> rfl
   case setExit => intro i prev hpc _; right; rw [hpc]; simp [stSetExit, CPc.setKey?]
   case setSend =>
-    intro i hpc _; right; rw [hpc]
+    intro i hpc _; left
     unfold stSetSend; split <;> simp [CPc.setKey?]
   case setRetTrue => intros; sk_none stSetRetTrue
   case setRetDrop => intros; sk_none stSetRetDrop
